@@ -160,3 +160,14 @@ for _pid, _site in {'C09': 'net2d-stats', 'C20': 'net2d-illposed'}.items():
     PROPS[_pid]['e1'].append(dict(NET2D)); PROPS[_pid]['must_reach'].append(_site)
     PROPS[_pid]['bounds'] = PROPS[_pid]['bounds'] + NET2D_BOUNDS
     PROPS[_pid]['outside'] = PROPS[_pid]['outside'] + NET2D_OUT + ('; ill-posed plane networks whose point-removal loop reaches singular_coords() with an all-zero column (0/0 compared as NaN)' if _pid == 'C20' else '')
+
+# ---- spatial polar networks with instrument / target heights (harness net3d) -----------------------------
+NET3D = {'harness': 'net3d', 'entry_points': ['GKFparser (from_dh, to_dh, s-distance, z-angle, direction, dh)', 'Acord2', 'refine_obsdh_reductions (reductions of slope distances and zenith angles)',
+                                             'LocalLinearization::s_distance/z_angle/direction/h_diff via LocalNetwork::project_equations', 'AdjEnvelope/AdjCholDec/AdjGSO via LocalNetwork'], 'budget_s': {'quick': 600, 'thorough': 1800}}
+NET3D_BOUNDS = ('; spatial polar networks (harness net3d): one station (optionally set up twice with different circle zero and instrument height), 4 targets at offsets with rational horizontal and slope distances, '
+                'one of them fixed, directions + slope distances + zenith angles + 4 height differences, with and without instrument / target heights; error-free (C06) or symbolic errors with the errors of a direction set in increasing order (C01, C02); first linearised adjustment only')
+NET3D_OUT = '; spatial networks: re-linearisation (approximate coordinates computed by Acord2 from slope observations with instrument heights are 0.1-0.2 m off and need iterations); an independent oracle for their design matrix (C01 there uses the equations gama hands out)'
+for _pid, _site in {'C01': 'net3d-agree', 'C02': 'net3d-agree', 'C06': 'net3d-consistent'}.items():
+    PROPS[_pid]['e1'].append(dict(NET3D)); PROPS[_pid]['must_reach'].append(_site)
+    PROPS[_pid]['bounds'] = PROPS[_pid]['bounds'] + NET3D_BOUNDS
+    PROPS[_pid]['outside'] = PROPS[_pid]['outside'] + NET3D_OUT
